@@ -37,6 +37,26 @@ PATTERN_LINTERS = {"improper-logging", "method-property", "stateless-class", "pi
 HEADER_BOUND = {"lazy-ignores", "file-header"}
 
 
+SEC_VIOLATING = re.compile(r"^(#|//)\s*(also\s+)?detected(\s+\(violations\)|\s+patterns\s*$|:)", re.I)
+SEC_ACCEPTABLE = re.compile(r"^(#|//)\s*not\s+detected\b", re.I)
+
+
+def sections(body):
+    """A block that starts with a '# Detected ...' comment: -> [(offset of the section's first line, label, class, lines)], or None."""
+    first = next((k for k, ln in enumerate(body) if ln.strip()), None)
+    if first is None or not SEC_VIOLATING.match(body[first].strip()):
+        return None
+    marks = [k for k, ln in enumerate(body) if SEC_VIOLATING.match(ln.strip()) or SEC_ACCEPTABLE.match(ln.strip())]
+    out = []
+    for a, b in zip(marks, marks[1:] + [len(body)]):
+        seg = body[a:b]
+        while seg and not seg[-1].strip():
+            seg = seg[:-1]
+        label = seg[0].strip().lstrip("#/ ").strip()
+        out.append((a + 1, label, "violating" if SEC_VIOLATING.match(seg[0].strip()) else "acceptable", seg))
+    return out
+
+
 def extract(repo: str):
     rows = []
     for p in sorted(glob.glob(os.path.join(repo, "docs", "*-linter.md"))):
@@ -70,6 +90,19 @@ def extract(repo: str):
                         cls = "illustrative"  # 'Before' of a refactoring pattern: shown as motivation, not stated to be reported
                     if re.search(r"\.\.\. \d+ more|^\s*(#|//) \.\.\.", text, re.M):
                         cls = "skipped"  # elided code
+                    segs = sections(body) if cls == "skipped" else None
+                    if segs:
+                        # one block, several examples: comment lines say which part is detected and which is not
+                        for (off, seg_label, seg_cls, seg_body) in segs:
+                            seg_text = "\n".join(seg_body) + "\n"
+                            if lang == "rs" and not re.search(r"^\s*(pub\s+)?(async\s+)?fn\s", seg_text, re.M):
+                                # bare statements are Rust only inside a function body
+                                seg_text = "fn documented_fragment() {\n" + "".join(("    " + ln if ln.strip() else ln) + "\n" for ln in seg_body) + "}\n"
+                            rows.append({"doc": doc, "line": i + 1 + off, "lang": lang, "label": seg_label, "heads": [h[1] for h in heads], "class": seg_cls, "text": seg_text,
+                                         "sha": hashlib.sha256(seg_text.encode()).hexdigest()[:12]})
+                        i = j
+                        i += 1
+                        continue
                     rows.append({"doc": doc, "line": i + 1, "lang": lang, "label": label, "heads": [h[1] for h in heads], "class": cls, "text": text,
                                  "sha": hashlib.sha256(text.encode()).hexdigest()[:12]})
                 i = j
